@@ -82,6 +82,11 @@ Theorem C10_prefix_refuted : forall h : str -> cell,
   exists t t', t <> t' /\ length t = length t' /\ h (enc_old t) = h (enc_old t').
 Proof. exact old_aliases. Qed.
 
+(* dropping the ':' after the length (seeded change C10-G) is refuted too: ("0","AAAAAAAA3xyz") / ("12AAAAAAAA","xyz") *)
+Theorem C10_nosep_refuted : forall h : str -> cell,
+  exists t t', t <> t' /\ length t = length t' /\ h (enc_nosep t) = h (enc_nosep t').
+Proof. exact nosep_aliases. Qed.
+
 Theorem C10_old_partition_refuted : forall h : str -> cell,
   ~ same_part (feature_values_old h witness_frame [[97%N]; [98%N]]) (tuples witness_frame [[97%N]; [98%N]]).
 Proof. exact old_partition_refuted. Qed.
@@ -117,6 +122,7 @@ Print Assumptions C10_score_equal.
 Print Assumptions C10_score_MI.
 Print Assumptions C10_no_collision_satisfiable.
 Print Assumptions C10_prefix_refuted.
+Print Assumptions C10_nosep_refuted.
 Print Assumptions C10_old_partition_refuted.
 Print Assumptions C10_candidates.
 Print Assumptions C10_checker_sound.
